@@ -353,3 +353,13 @@ func familyOfShared(p *an.Prog, fn *ssa.Function, siblings []*ssa.Function, dept
 	}
 	return order
 }
+
+// isPrivateHelperOf: h belongs to the family of fn (see familyOf).
+func isPrivateHelperOf(p *an.Prog, fn, h *ssa.Function) bool {
+	for _, m := range familyOf(p, fn, 2) {
+		if m == h && m != fn {
+			return true
+		}
+	}
+	return false
+}
